@@ -113,7 +113,7 @@ def solve(assertions, rlimit=RLIMIT_PROVE, want_model=True, use_cvc5=True, tacti
                 c2 = z3.Context()
                 s2 = z3.Solver(ctx=c2)
                 s2.set("rlimit", rlimit * factor)
-                s2.set("timeout", TIMEOUT_MS)
+                s2.set("timeout", min(TIMEOUT_MS, 90_000))
                 s2.set("random_seed", seed)
                 s2.add(*[a.translate(c2) for a in assertions])
                 STATS["z3_queries"] += 1
